@@ -957,11 +957,10 @@ Lemma filter_filter_name n m fs :
   filter (name_eq n) (filter (name_eq m) fs) = if list_N_eqb m n then filter (name_eq n) fs else [].
 Proof.
   induction fs as [|f r IH]; cbn [filter]; [destruct (list_N_eqb m n); reflexivity|].
-  unfold name_eq at 2. destruct (list_N_eqb (fst f) m) eqn:Em.
-  - cbn [filter]. apply list_N_eqb_eq in Em. subst m. unfold name_eq at 1 3. rewrite IH.
-    destruct (list_N_eqb (fst f) n); reflexivity.
-  - rewrite IH. destruct (list_N_eqb m n) eqn:Emn; [|reflexivity].
-    apply list_N_eqb_eq in Emn. subst n. unfold name_eq at 2. rewrite Em. reflexivity.
+  destruct (name_eq m f) eqn:Em; cbn [filter]; rewrite IH; unfold name_eq in *.
+  - apply list_N_eqb_eq in Em. rewrite Em. destruct (list_N_eqb m n); reflexivity.
+  - destruct (list_N_eqb m n) eqn:Emn; [|reflexivity]. apply list_N_eqb_eq in Emn. subst n.
+    rewrite Em. reflexivity.
 Qed.
 
 Lemma filter_flat_map {A B} (p : B -> bool) (g : A -> list B) l :
@@ -985,6 +984,12 @@ Proof.
   - reflexivity.
 Qed.
 
+Lemma filter_none {A} (p : A -> bool) l : (forall x, In x l -> p x = false) -> filter p l = [].
+Proof.
+  induction l as [|x l IH]; intros H; [reflexivity|]. cbn [filter]. rewrite (H x (or_introl eq_refl)).
+  apply IH. intros y Hy. apply H. right. exact Hy.
+Qed.
+
 Lemma filter_name_hm_order n fs : filter (name_eq n) (hm_order fs) = filter (name_eq n) fs.
 Proof.
   unfold hm_order. rewrite filter_flat_map.
@@ -992,8 +997,231 @@ Proof.
     [|intros m; apply (filter_filter_name n m fs)].
   rewrite (flat_map_single n fs _ (proj1 (names_dedup_nodup fs []))).
   destruct (existsb (list_N_eqb n) (names_dedup [] fs)) eqn:E; [reflexivity|].
-  symmetry. induction fs as [|f r IH]; [reflexivity|]. exfalso.
-  assert (In (fst f) (names_dedup [] (f :: r))) by (cbn [names_dedup existsb]; left; reflexivity).
-  clear IH. revert E H. generalize (names_dedup [] (f :: r)). intros L E H.
-  (* not every field is named n, but the claim is about filter: redo by membership *)
-Abort.
+  symmetry. apply filter_none. intros f Hf. destruct (name_eq n f) eqn:En; [|reflexivity]. exfalso.
+  unfold name_eq in En. apply list_N_eqb_eq in En.
+  destruct (names_dedup_in fs [] f Hf) as [X|X]; [discriminate|]. rewrite En in X.
+  apply (eq_true_false_abs _ (eq_refl true)). rewrite <- E. symmetry. apply existsb_exists. exists n.
+  split; [exact X|apply list_N_eqb_refl].
+Qed.
+
+(* the block the send API writes: pseudo-header fields of frame::headers::Iter, then the map *)
+Lemma value_of_app s a b :
+  value_of s (a ++ b) = match value_of s a with Some v => Some v | None => value_of s b end.
+Proof.
+  induction a as [|f r IH]; [reflexivity|]. cbn [app value_of]. destruct (named s f); [reflexivity|exact IH].
+Qed.
+
+Lemma occurrences_app s a b : occurrences s (a ++ b) = (occurrences s a + occurrences s b)%nat.
+Proof. unfold occurrences. rewrite filter_app, app_length. reflexivity. Qed.
+
+Lemma pseudo_fields_value h P : h <> HField -> value_of (pname h) (pseudo_fields P) = ps_get h P.
+Proof.
+  intros Hh. destruct P as [[m|] [s|] [a|] [p|] [pr|] [st|]]; destruct h; try congruence; reflexivity.
+Qed.
+
+Lemma pseudo_fields_occ h P : h <> HField -> (occurrences (pname h) (pseudo_fields P) <= 1)%nat.
+Proof.
+  intros Hh. destruct P as [[m|] [s|] [a|] [p|] [pr|] [st|]]; destruct h; try congruence;
+    unfold occurrences; vm_compute; lia.
+Qed.
+
+Lemma pseudo_fields_clean P :
+  existsb bad_field (pseudo_fields P) = false /\ existsb connection_specific (pseudo_fields P) = false /\
+  existsb bad_te (pseudo_fields P) = false /\ forallb is_pseudo (pseudo_fields P) = true /\
+  filter (named "content-length") (pseudo_fields P) = [].
+Proof. destruct P as [[m|] [s|] [a|] [p|] [pr|] [st|]]; repeat split; reflexivity. Qed.
+
+Lemma name_ok_not_pseudo f : name_ok (fst f) = true -> is_pseudo f = false.
+Proof.
+  unfold is_pseudo, name_ok. destruct (fst f) as [|c r]; [discriminate|].
+  rewrite andb_true_iff. cbn [forallb]. rewrite andb_true_iff. intros (_ & H & _).
+  unfold name_char_ok, in_range in H. lia.
+Qed.
+
+Definition representable (fields : list field) : Prop :=
+  Forall (fun f => name_ok (fst f) = true /\ value_ok (snd f) = true) fields.
+
+Lemma par_app ps regs :
+  forallb is_pseudo ps = true -> existsb is_pseudo regs = false -> pseudo_after_regular (ps ++ regs) = false.
+Proof.
+  intros Hp Hr. induction ps as [|f r IH]; cbn [app].
+  - induction regs as [|g regs IH2]; [reflexivity|]. cbn [existsb] in Hr. apply orb_false_iff in Hr.
+    destruct Hr as (H1 & H2). cbn [pseudo_after_regular]. rewrite H1. exact H2.
+  - cbn [forallb] in Hp. apply andb_true_iff in Hp. destruct Hp as (H1 & H2).
+    cbn [pseudo_after_regular]. rewrite H1. exact (IH H2).
+Qed.
+
+Lemma send_block_ok P fields :
+  representable fields -> check_headers fields = true ->
+  let w := pseudo_fields P ++ hm_order fields in
+  bad_fields w = false /\ (forall h, h <> HField -> value_of (pname h) w = ps_get h P) /\
+  values_of "content-length" w = all_values cl_name fields.
+Proof.
+  intros Hr Hc w. subst w.
+  destruct (pseudo_fields_clean P) as (P1 & P2 & P3 & P4 & P5).
+  apply C13_send in Hc. destruct Hc as (C1 & C2).
+  assert (Hreg : forall f, In f (hm_order fields) -> is_pseudo f = false /\ bad_field f = false).
+  { intros f Hf. apply (proj1 (hm_order_in _ _)) in Hf. unfold representable in Hr. rewrite Forall_forall in Hr.
+    destruct (Hr f Hf) as (A & B). pose proof (name_ok_not_pseudo f A) as Np. split; [exact Np|].
+    unfold bad_field. rewrite Np, (name_ok_regular _ A), (value_ok_octets _ B). reflexivity. }
+  assert (Hnp : existsb is_pseudo (hm_order fields) = false).
+  { apply existsb_false_forall. intros f Hf. exact (proj1 (Hreg f Hf)). }
+  assert (Hval : forall h, h <> HField -> value_of (pname h) (hm_order fields) = None /\ occurrences (pname h) (hm_order fields) = O).
+  { intros h Hh. split; [|exact (no_pseudo_occ _ h Hnp Hh)].
+    destruct (value_of (pname h) (hm_order fields)) as [v|] eqn:E; [|reflexivity]. exfalso.
+    destruct (value_of_in _ _ _ E) as (f & Hf & Hn & _). rewrite (regular_not_pname f h (proj1 (Hreg f Hf)) Hh) in Hn. discriminate. }
+  split; [|split].
+  - unfold bad_fields. rewrite !existsb_app, P1, P2, P3.
+    rewrite (existsb_false_forall bad_field (hm_order fields) (fun f Hf => proj2 (Hreg f Hf))).
+    rewrite !existsb_hm_order, C1, C2. cbn [orb].
+    rewrite (par_app _ _ P4 Hnp). cbn [orb]. apply no_dup_pseudo. intros h Hh.
+    rewrite occurrences_app, (proj2 (Hval h Hh)). pose proof (pseudo_fields_occ h P Hh). lia.
+  - intros h Hh. rewrite value_of_app, (pseudo_fields_value h P Hh), (proj1 (Hval h Hh)).
+    destruct (ps_get h P); reflexivity.
+  - unfold values_of, all_values. rewrite filter_app, P5. cbn [app].
+    change (filter (named "content-length") (hm_order fields)) with (filter (name_eq cl_name) (hm_order fields)).
+    rewrite filter_name_hm_order. reflexivity.
+Qed.
+
+(* KF-C13-3: Pseudo::request builds the pseudo-header fields from whatever parts the URI has *)
+Definition known_send (fs : list field) : bool :=
+  match value_of ":method" fs with
+  | None => false
+  | Some m =>
+      if list_N_eqb m (bstr "CONNECT")
+      then negb (has ":protocol" fs) && (has ":scheme" fs || has ":path" fs || negb (has ":authority" fs))
+      else negb (has ":scheme" fs)
+  end.
+Definition KnownSend (fs : list field) : Prop := known_send fs = true.
+
+Definition known_send_ps (P : pseudo) : bool :=
+  match p_method P with
+  | None => false
+  | Some m =>
+      if list_N_eqb m (bstr "CONNECT")
+      then negb (is_some (p_protocol P)) && (is_some (p_scheme P) || is_some (p_path P) || negb (is_some (p_authority P)))
+      else negb (is_some (p_scheme P))
+  end.
+
+Lemma known_send_eq fs P :
+  (forall h, h <> HField -> value_of (pname h) fs = ps_get h P) -> known_send fs = known_send_ps P.
+Proof.
+  intros H.
+  pose proof (H HMethod ltac:(discriminate)) as H2. pose proof (H HProtocol ltac:(discriminate)) as H3.
+  pose proof (H HScheme ltac:(discriminate)) as H4. pose proof (H HPath ltac:(discriminate)) as H5.
+  pose proof (H HAuthority ltac:(discriminate)) as H6. cbn [pname ps_get] in *.
+  unfold known_send, known_send_ps. rewrite !has_value_of, H2, H3, H4, H5, H6. reflexivity.
+Qed.
+
+Lemma request_pseudo_shape method s a p :
+  (match p with Some x => (lenN x =? 0) = false | None => True end) ->
+  (list_N_eqb method (bstr "CONNECT") = false -> p <> None) ->
+  known_send_ps (mk_pseudo (Some method) s a p None None) = false ->
+  bad_request_ps (mk_pseudo (Some method) s a p None None) = false.
+Proof.
+  unfold known_send_ps, bad_request_ps. cbn [p_method p_scheme p_authority p_path p_protocol p_status is_some value_is negb orb andb].
+  change (octets "CONNECT") with (bstr "CONNECT"). change (octets "") with (@nil N).
+  intros Hp Hc. destruct (list_N_eqb method (bstr "CONNECT")) eqn:E; cbn [andb].
+  - intros H. exact H.
+  - specialize (Hc eq_refl). destruct p as [x|]; [|congruence]. rewrite lenN_zero, Hp.
+    cbn [is_some negb orb andb]. intros H. rewrite H. reflexivity.
+Qed.
+
+Lemma lenN_lit_slash : (lenN (bstr "/") =? 0) = false. Proof. reflexivity. Qed.
+Lemma lenN_lit_star : (lenN (bstr "*") =? 0) = false. Proof. reflexivity. Qed.
+
+(* For every method, URI (by its parts), version and representable header map: what send_request
+   puts on the wire is not malformed as a request (8.2, 8.3, 8.3.1, 8.5) - except in the known class
+   KF-C13-3, where Pseudo::request omits or adds :scheme/:path/:authority for unusual URI forms. *)
+Theorem C13_send_except_known :
+  forall (method : list N) (us ua up : option (list N)) (h2 : bool) (fields w : list field),
+    representable fields ->
+    send_request method us ua up h2 fields = Some w ->
+    ~ KnownSend w ->
+    malformed Server Request w = false.
+Proof.
+  intros method us ua up h2 fields w Hr Hs Hk. unfold send_request in Hs.
+  destruct (send_request_pseudo method us ua up h2) as [P|] eqn:EP; [|discriminate].
+  destruct (check_headers fields) eqn:Ec; [|discriminate]. inversion Hs as [Hw]. clear Hs.
+  destruct (send_block_ok P fields Hr Ec) as (B1 & B2 & _). rewrite Hw in B1, B2.
+  unfold malformed. cbn [kind_received_by negb orb]. rewrite B1. cbn [orb].
+  rewrite (bad_request_ps_eq w P (fun h Hh => eq_sym (B2 h Hh))).
+  assert (Hk' : known_send_ps P = false).
+  { rewrite <- (known_send_eq w P B2). unfold KnownSend in Hk. destruct (known_send w); [congruence|reflexivity]. }
+  clear Hk B1 B2 Hw. unfold send_request_pseudo in EP.
+  set (path := if list_N_eqb method (bstr "CONNECT") then None else
+               Some match up with
+                    | Some p => if lenN p =? 0 then if list_N_eqb method (bstr "OPTIONS") then bstr "*" else bstr "/" else p
+                    | None => if list_N_eqb method (bstr "OPTIONS") then bstr "*" else bstr "/"
+                    end) in *.
+  assert (Hp1 : match path with Some x => (lenN x =? 0) = false | None => True end).
+  { subst path. destruct (list_N_eqb method (bstr "CONNECT")); [exact I|].
+    destruct up as [p|]; [destruct (lenN p =? 0) eqn:E0|]; try destruct (list_N_eqb method (bstr "OPTIONS")); auto. }
+  assert (Hp2 : list_N_eqb method (bstr "CONNECT") = false -> path <> None).
+  { subst path. intros ->. discriminate. }
+  destruct (if list_N_eqb method (bstr "CONNECT") then None else us) as [s|] eqn:Es.
+  - inversion EP. subst P. exact (request_pseudo_shape method (Some s) ua path Hp1 Hp2 Hk').
+  - destruct ua as [a|].
+    + inversion EP. subst P. exact (request_pseudo_shape method None (Some a) path Hp1 Hp2 Hk').
+    + destruct h2; [discriminate|]. inversion EP. subst P.
+      exact (request_pseudo_shape method (Some (bstr "http")) None path Hp1 Hp2 Hk').
+Qed.
+
+(* push_request: additionally the method is safe and no content is declared (validate_request) *)
+Theorem C13_send_push_except_known :
+  forall (method : list N) (us ua up : option (list N)) (fields w : list field),
+    representable fields ->
+    send_push method us ua up fields = Some w ->
+    ~ KnownSend w ->
+    malformed Client PushedRequest w = false.
+Proof.
+  intros method us ua up fields w Hr Hs Hk. unfold send_push in Hs.
+  destruct (validate_push method fields) eqn:Ev; [|discriminate].
+  destruct (check_headers fields) eqn:Ec; [|discriminate]. cbn [andb] in Hs. inversion Hs as [Hw]. clear Hs.
+  set (P := push_request_pseudo method us ua up) in *.
+  destruct (send_block_ok P fields Hr Ec) as (B1 & B2 & B3). rewrite Hw in B1, B2, B3.
+  unfold malformed. cbn [kind_received_by negb orb]. rewrite B1. cbn [orb]. unfold bad_pushed_request.
+  rewrite (bad_request_ps_eq w P (fun h Hh => eq_sym (B2 h Hh))).
+  assert (Hk' : known_send_ps P = false).
+  { rewrite <- (known_send_eq w P B2). unfold KnownSend in Hk. destruct (known_send w); [congruence|reflexivity]. }
+  unfold validate_push in Ev. apply andb_true_iff in Ev. destruct Ev as (Ev1 & Ev2).
+  pose proof (B2 HMethod ltac:(discriminate)) as Hm. cbn [pname ps_get] in Hm. rewrite Hm.
+  assert (HPm : p_method P = Some method) by reflexivity. rewrite HPm. cbn [value_is].
+  change (octets "GET") with (bstr "GET"). change (octets "HEAD") with (bstr "HEAD"). rewrite Ev2. cbn [negb orb].
+  assert (Hdl : match declared_length w with Some n => negb (n =? 0) | None => false end = false).
+  { unfold declared_length. rewrite B3. rewrite first_value_all in Ev1.
+    destruct (all_values cl_name fields) as [|x xs]; [reflexivity|].
+    apply opt_N_eqb_some in Ev1. rewrite (parse_u64_decimal x 0 Ev1). reflexivity. }
+  rewrite Hdl, orb_false_r.
+  clear Hk B1 B2 B3 Hw Hm Hdl. subst P. unfold push_request_pseudo in *.
+  set (path := if list_N_eqb method (bstr "CONNECT") then None else
+               Some match up with
+                    | Some p => if lenN p =? 0 then if list_N_eqb method (bstr "OPTIONS") then bstr "*" else bstr "/" else p
+                    | None => if list_N_eqb method (bstr "OPTIONS") then bstr "*" else bstr "/"
+                    end) in *.
+  assert (Hp1 : match path with Some x => (lenN x =? 0) = false | None => True end).
+  { subst path. destruct (list_N_eqb method (bstr "CONNECT")); [exact I|].
+    destruct up as [p|]; [destruct (lenN p =? 0) eqn:E0|]; try destruct (list_N_eqb method (bstr "OPTIONS")); auto. }
+  assert (Hp2 : list_N_eqb method (bstr "CONNECT") = false -> path <> None).
+  { subst path. intros ->. discriminate. }
+  exact (request_pseudo_shape method _ ua path Hp1 Hp2 Hk').
+Qed.
+
+(* the known class is real *)
+Theorem C13_known_3_refuted :
+  exists method us ua up h2 fields w,
+    representable fields /\ send_request method us ua up h2 fields = Some w /\ malformed Server Request w = true.
+Proof.
+  exists (bstr "GET"), None, (Some (bstr "example.com")), None, false, [], [(bstr ":method", bstr "GET"); (bstr ":authority", bstr "example.com"); (bstr ":path", bstr "/")].
+  split; [constructor|]. vm_compute. split; reflexivity.
+Qed.
+
+Example C13_send_nonvacuous :
+  exists w, send_request (bstr "GET") (Some (bstr "https")) (Some (bstr "example.com")) (Some (bstr "/x")) false
+              [(bstr "accept", bstr "*/*"); (bstr "te", bstr "trailers")] = Some w /\ ~ KnownSend w /\
+            send_request (bstr "GET") (Some (bstr "https")) (Some (bstr "example.com")) (Some (bstr "/x")) false
+              [(bstr "te", bstr "trailers"); (bstr "te", bstr "gzip")] = None.
+Proof.
+  eexists. split; [vm_compute; reflexivity|]. split; [|vm_compute; reflexivity].
+  unfold KnownSend. vm_compute. discriminate.
+Qed.
